@@ -73,7 +73,7 @@ def cases(thorough):
 
 
 OTHER_UNIT = {"length": "km", "mass": "kg", "time": "yr", "velocity": "km/s", "density": "kg/m**3", "energy": "J", "dimensionless": "dimensionless",
-              "temperature": "mK"}
+              "temperature": "mK", "magnetic_gaussian": "mG", "magnetic_SI": "T", "electric_SI": "V/m", "capacitance": "F", "resistance": "ohm"}
 
 
 def family_of(u):
